@@ -23,6 +23,7 @@ import CtyModel.Lemmas.StdOblTable
 import CtyModel.Lemmas.d11Alloc
 import CtyModel.Lemmas.d11Table
 import CtyModel.Lemmas.d11Total
+import CtyModel.Lemmas.d11bColl
 import CtyModel.Props.C10
 namespace CtyModel
 namespace C11
@@ -593,6 +594,45 @@ example : (match (call Stdlib.hasIndexSpec Stdlib.hasIndexType Stdlib.hasIndexIm
     [(⟨.list .string, .seq [.s "a"]⟩ : Value), Value.intVal 0]).1 with
     | .ok v => (match v.v with | .b true => true | _ => false)
     | _ => false) = true := by decide
+
+
+/-! ### more functions, end to end (second deepening, lemmas in `Lemmas/d11b*.lean`)
+
+Each theorem below is `call_total_of_obligations` with all four hypotheses PROVED for the function's
+modelled callbacks (`Stdlib/Collection.lean`, tied to the code by the `std.call`/`std.callm`
+correspondence of C13 and by the `d11b.call` correspondence of this check on C11's own argument
+generator): `XFunc.Call(args)` on well-formed values — ANY number of them, of any type, null, unknown,
+marked (at any depth) or dynamically typed — returns a value or an ordinary error; never a Go panic,
+never a `PanicError`.  `E` is the environment of answers from other packages (set iteration order,
+`convert`): the theorems hold for EVERY environment. -/
+
+/-- **`keys` is total** (collection.go `KeysFunc`) -/
+theorem call_total_keys (nfc : String → Bool) (args : List Value) (hargs : ∀ a ∈ args, a.WF nfc = true) :
+    (∀ w, (call Stdlib.keysSpec Stdlib.keysType Stdlib.keysImpl args).1 ≠ .panic w) ∧
+    (∀ w, (call Stdlib.keysSpec Stdlib.keysType Stdlib.keysImpl args).1 ≠ .err (.panicError w)) :=
+  Stdlib.call_total_keys args hargs
+
+/-- **`values` is total** (collection.go `ValuesFunc`) -/
+theorem call_total_values (nfc : String → Bool) (E : Stdlib.Env) (args : List Value) (hargs : ∀ a ∈ args, a.WF nfc = true) :
+    (∀ w, (call Stdlib.valuesSpec Stdlib.valuesType (Stdlib.valuesImpl E) args).1 ≠ .panic w) ∧
+    (∀ w, (call Stdlib.valuesSpec Stdlib.valuesType (Stdlib.valuesImpl E) args).1 ≠ .err (.panicError w)) :=
+  Stdlib.call_total_values E args hargs
+
+/-- **`reverse` is total** (collection.go `ReverseListFunc`; lists, sets — also sets that are not wholly
+known — and tuples) -/
+theorem call_total_reverse (nfc : String → Bool) (E : Stdlib.Env) (args : List Value) (hargs : ∀ a ∈ args, a.WF nfc = true) :
+    (∀ w, (call Stdlib.reverseSpec Stdlib.reverseType (Stdlib.reverseImpl E) args).1 ≠ .panic w) ∧
+    (∀ w, (call Stdlib.reverseSpec Stdlib.reverseType (Stdlib.reverseImpl E) args).1 ≠ .err (.panicError w)) :=
+  Stdlib.call_total_reverse E args hargs
+
+/-- **`coalescelist` is total** (collection.go `CoalesceListFunc`, variadic: any number of arguments,
+null / unknown / dynamically typed ones allowed by the parameter).  The `Type` callback stops at the
+first unknown argument WITHOUT having looked at the later ones; `Impl` is safe all the same because it
+stops there too (`Stdlib.clPre`). -/
+theorem call_total_coalescelist (nfc : String → Bool) (args : List Value) (hargs : ∀ a ∈ args, a.WF nfc = true) :
+    (∀ w, (call Stdlib.coalesceListSpec Stdlib.coalesceListType Stdlib.coalesceListImpl args).1 ≠ .panic w) ∧
+    (∀ w, (call Stdlib.coalesceListSpec Stdlib.coalesceListType Stdlib.coalesceListImpl args).1 ≠ .err (.panicError w)) :=
+  Stdlib.call_total_coalesceList args hargs
 
 /-! ### the hypotheses are satisfiable -/
 
